@@ -920,7 +920,8 @@ def forhier(g: int, sh: int, side: int, ek: int, c: int, k: int, a: int, b: int)
     return _plain(_forhier_check, sh, side, ek, c, k, a, b)
 
 
-# constant subscripts, ALL integers (symbolically executed)
+# constant subscripts: ALL integers, symbolically executed (flattening an instance hierarchy under tracing is slow:
+# thorough tier) - or, in a shard pinned win=1, the window i in [-3, 6], j in [-1, 5] forked to concrete values (quick tier)
 HSUB_G = {0: (0,), 1: (8, 9), 2: (1, 2), 3: (3,), 4: (4,), 5: (6,)}  # shard groups (4/5 and 6/7 are the same reference here)
 if _want("hsub"):
     T_HSUB = {sh: _tpl(_hier_text(sh, "  y = {R};\n", "  Real y;\n").replace("{E}", "7001"))
@@ -931,13 +932,7 @@ def _w_hsub(g, sh, i, j):
     return _in_group(HSUB_G, g, sh) and (sh in HIER_TWO or j == 0)
 
 
-def hsub(g: int, sh: int, i: int, j: int) -> int:
-    """
-    pre: pin(g=g) and _w_hsub(g, sh, i, j)
-    post: _ == 1
-    """
-    g = _concretize(g, 0, 5)
-    sh = _concretize(sh, 0, 9)
+def _hsub_check(sh, i, j):
     m = _gen(_inst(T_HSUB[sh], {7001: i, 7004: j}))
     ok = _hier_ok(sh, [i], j)
     if m is None:
@@ -946,6 +941,18 @@ def hsub(g: int, sh: int, i: int, j: int) -> int:
         return 0
     got = _call(m, alg=DEC[:_hier_size(sh)] + [0.0])
     return 1 if got == [-DEC[_hier_elem(sh, i, j)]] else 0
+
+
+def hsub(g: int, sh: int, i: int, j: int) -> int:
+    """
+    pre: pin(g=g) and _w_hsub(g, sh, i, j) and (_cap("win", 0) == 0 or (-3 <= i <= 6 and -1 <= j <= 5))
+    post: _ == 1
+    """
+    g = _concretize(g, 0, 5)
+    sh = _concretize(sh, 0, 9)
+    if _cap("win", 0):
+        return _plain(_hsub_check, sh, _concretize(i, -3, 6), _concretize(j, -1, 5))
+    return _hsub_check(sh, i, j)
 
 
 # slices (s == 0: the unstrided spelling a:b)
